@@ -163,7 +163,7 @@ def lin_exact(a, ctrl, s0, t):
     Closed form of  ds_i/dt = a*s_i + u  at time t, all components.
 
     ctrl = ("const", v): u = v         -> s_i = s_i0 e^{at} + v (e^{at}-1)/a
-    ctrl = ("ks0", k):   u = k * s_0   -> s_i = e^{at} (s_i0 + s_00 (e^{kt}-1))
+    ctrl = ("ks0", k):   u = k * s_0   -> s_i = (s_i0-s_00) e^{at} + s_00 e^{(a+k)t}
     Returns (state list, control value).
     """
     kind, p = ctrl
@@ -172,8 +172,8 @@ def lin_exact(a, ctrl, s0, t):
         grow = t if a == 0.0 else _expm1(a * t) / a
         return [_mul(x, eat) + _mul(p, grow) for x in s0], p
     if kind == "ks0":
-        ekt = _expm1(p * t)
-        st = [_mul(x + _mul(s0[0], ekt), eat) for x in s0]
+        eakt = _exp((a + p) * t)
+        st = [_mul(x - s0[0], eat) + _mul(s0[0], eakt) for x in s0]
         return st, p * st[0]
     raise ValueError(kind)
 
